@@ -58,6 +58,28 @@ extern "C" {
     fn polynomial_len(p: H) -> usize;
     fn polynomial_get_coeffs(p: H, buf: *mut f64, max_len: usize) -> usize;
     fn new_polynomial(coeffs: *const f64, len: usize) -> H;
+    fn bdd_scratch(f: H, default: usize) -> usize;
+    fn bdd_set_scratch(f: H, val: usize);
+    fn bdd_clear_scratch(f: H);
+    fn bdd_num_recursive_calls(b: H) -> usize;
+    fn wmc_param_complex_var_weight(w: H, var: u64) -> WeightComplex;
+    fn weight_complex_lo(w: WeightComplex) -> Complex;
+    fn weight_complex_hi(w: WeightComplex) -> Complex;
+    fn wmc_param_poly_var_weight(w: H, var: u64) -> WeightPoly;
+    fn free_wmc_params_f64(w: H);
+    fn free_wmc_params_complex(w: H);
+    fn destroy_wmc_params_poly(w: H);
+    fn destroy_polynomial(p: H);
+}
+
+#[repr(C)]
+#[derive(Clone, Copy)]
+struct WeightComplex(Complex, Complex);
+
+#[repr(C)]
+struct WeightPoly {
+    low: H,
+    high: H,
 }
 
 /// complement-free expansion through the C accessors: `T`, `F`, `(v,lo,hi)`
@@ -188,6 +210,43 @@ pub fn ffi_line(rng: &mut Rng, maxvars: usize, maxops: usize) -> String {
         let long: Vec<f64> = (0..MAX_COEFFS + 5).map(|i| (i % 3) as f64).collect();
         let lp = new_polynomial(long.as_ptr(), long.len());
         let lplen = polynomial_len(lp);
+        // the remaining accessors: per-node scratch slot, recursion counter, weight read-back
+        let xs = if bdd_is_const(last) {
+            "const".to_string()
+        } else {
+            let a = bdd_scratch(last, 3);
+            bdd_set_scratch(last, 7);
+            let b2 = bdd_scratch(last, 3);
+            bdd_clear_scratch(last);
+            let c2 = bdd_scratch(last, 5);
+            format!("{}.{}.{}", a, b2, c2)
+        };
+        let crc = bdd_num_recursive_calls(b);
+        let cwb = {
+            let w = wmc_param_complex_var_weight(wcx, 0);
+            let (l, h) = (weight_complex_lo(w), weight_complex_hi(w));
+            format!("{}:{}:{}:{}", f64_exact(l.re), f64_exact(l.im), f64_exact(h.re), f64_exact(h.im))
+        };
+        let cpb = {
+            let w = wmc_param_poly_var_weight(wpo, 0);
+            let rd = |p: H| -> String {
+                if p.is_null() {
+                    return "null".to_string();
+                }
+                let len = polynomial_len(p);
+                let mut buf = vec![0.0f64; MAX_COEFFS];
+                let got = polynomial_get_coeffs(p, buf.as_mut_ptr(), MAX_COEFFS);
+                poly_str(len, &buf[..got])
+            };
+            let r = format!("{}~{}", rd(w.low), rd(w.high));
+            destroy_polynomial(w.low);
+            destroy_polynomial(w.high);
+            r
+        };
+        free_wmc_params_f64(wf);
+        free_wmc_params_complex(wcx);
+        destroy_wmc_params_poly(wpo);
+        destroy_polynomial(lp);
         let _ = bdd_new_label(b);
         free_bdd_manager(b);
         // ---- through the native API
@@ -228,16 +287,36 @@ pub fn ffi_line(rng: &mut Rng, maxvars: usize, maxops: usize) -> String {
             };
             pm.insert(VarLabel::new_usize(v), (mkp(&wp[v].0), mkp(&wp[v].1)));
         }
+        let nxs = if nlast.is_const() {
+            "const".to_string()
+        } else {
+            let a = nlast.scratch::<usize>().unwrap_or(3);
+            nlast.set_scratch::<usize>(7);
+            let b2 = nlast.scratch::<usize>().unwrap_or(3);
+            nlast.clear_scratch();
+            let c2 = nlast.scratch::<usize>().unwrap_or(5);
+            format!("{}.{}.{}", a, b2, c2)
+        };
+        let nrc = nb.num_recursive_calls();
+        let nwb = {
+            let (a, bb, c, d) = wc[0];
+            format!("{}:{}:{}:{}", f64_exact(a as f64 / 2.0), f64_exact(bb as f64 / 2.0), f64_exact(c as f64 / 2.0), f64_exact(d as f64 / 2.0))
+        };
+        let npb = {
+            let (l, h) = pm.get(&VarLabel::new_usize(0)).unwrap();
+            let f = |p: &Polynomial<RealSemiring>| poly_str(p.len, &p.coefficients[..p.len].iter().map(|c| c.0).collect::<Vec<_>>());
+            format!("{}~{}", f(l), f(h))
+        };
         let nr = f64_exact(nlast.unsmoothed_wmc(&WmcParams::new(rm)).0);
         let ncx = nlast.unsmoothed_wmc(&WmcParams::new(cm));
         let npoly = nlast.unsmoothed_wmc(&WmcParams::new(pm));
         let npc: Vec<f64> = npoly.coefficients[..npoly.len].iter().map(|c| c.0).collect();
         format!(
-            "mcnow={} cw={} ceq={} cmc={} cnodes={} cconst={} wback={} cr={} cc={},{} cp={} lplen={} json={} nw={} neq={} nmc={} nr={} nc={},{} np={} nvars={}",
+            "mcnow={} cw={} ceq={} cmc={} cnodes={} cconst={} wback={} cr={} cc={},{} cp={} lplen={} json={} nw={} neq={} nmc={} nr={} nc={},{} np={} nvars={} xs={} nxs={} crc={} nrc={} cwb={} nwb={} cpb={} npb={}",
             csv(&mc_now), cw.join("|"), csv(&ceq), csv(&cmc), csv(&cnodes), cconst, wback, cr,
             f64_exact(cc.re), f64_exact(cc.im), cp, lplen, js.replace(' ', ""),
             nw.join("|"), csv(&neq), csv(&nmc), nr, f64_exact(ncx.re), f64_exact(ncx.im),
-            poly_str(npoly.len, &npc), nv
+            poly_str(npoly.len, &npc), nv, xs, nxs, crc, nrc, cwb, nwb, cpb, npb
         )
     });
     format!("{} => {}", head, r.unwrap_or_else(|e| e))
